@@ -84,6 +84,22 @@ func genC05(seed uint64, index int, tier string) C05Cfg {
 	c.MsgType = 1 + r.Intn(3)
 	c.Mutation = c05Mutations[r.Intn(len(c05Mutations))]
 	c.Direct = prng.Derive(seed, "direct").Bool(0.3)
+	// 40% of the runs: the same scenario over small non-contiguous identifiers (order-preserving renaming)
+	if rs := prng.Derive(seed, "sparse-ids"); rs.Bool(0.4) {
+		m := map[uint16]uint16{}
+		next := uint16(0)
+		for _, id := range ids {
+			next += uint16(rs.Range(1, 9))
+			m[id] = next - 1
+		}
+		for i := range c.Deploy.IDs {
+			c.Deploy.IDs[i] = m[c.Deploy.IDs[i]]
+		}
+		c.Culprit = m[c.Culprit]
+		for i := range c.Victims {
+			c.Victims[i] = m[c.Victims[i]]
+		}
+	}
 	return c
 }
 
